@@ -174,6 +174,11 @@ def handoff_race(run, prop, classes, all_rejects):
         n = sum(1 for line in open(tp) if '"ev":"Reset"' in line)
         run.traces += n
         run.extra[label.replace("-", "_") + "_scenarios"] = n
+        if label == "arrival-race":
+            # callers started at once in real time: whether a refusal met a full backlog depends on an arrival order the log
+            # cannot fix (the refused caller's events can precede the push that filled the backlog) - these scenarios are
+            # judged for the backlog bound, conservation and the gate, not for the justification of refusals
+            rejects = [rj for rj in rejects if rj["class"] != "early"]
         handle_rejects(run, prop, rejects, tp, classes, label, all_rejects)
 
 
